@@ -12,7 +12,7 @@ use serde_json::{Value, json};
 use std::collections::{BTreeMap, BTreeSet};
 
 pub fn meta(rep: &mut Report) {
-    rep.rule = "complete witnesses: 0-2 states over {bv1, bv3, bv64, bv65, array 1->2, 2->1, 3->8} (arrays with 0-4 recorded indices incl. data 0, unsorted and repeated indices, nonzero default, sparse and dense representation), 0-2 bit-vector inputs over {1,3,64,65}, 0-3 frames (0 = a zero-step witness: initial frame only), sparse array states with index widths 8, 32, 63, 64, 65, 128 (indices 0, max, msb-only, 5), failed sets = non-empty subsets of {0,1,7}, names None / simple / with $ . [ ] (sub-class: names containing @ or #); values swept over the boundary alphabet (every value of every type appears as a state value and as an input value in the first and in a later frame); and all concatenations of 1-3 witnesses of a reduced set read with parse_witnesses(n) for n = 1, count, count+1. Each witness: witness_to_string -> parse_witness; field-wise comparison, arrays compared at every recorded index. distinct_nontrivial = distinct witness texts that were read back.".into();
+    rep.rule = "complete witnesses: 0-2 states over {bv1, bv3, bv64, bv65, array 1->2, 2->1, 3->8} (arrays with 0-4 recorded indices incl. data 0, unsorted and repeated indices, nonzero default, sparse and dense representation), 0-2 bit-vector inputs over {1,3,64,65}, 0-3 frames (0 = a zero-step witness: initial frame only), sparse array states with index widths 8, 32, 63, 64, 65, 128 (indices 0, max, msb-only, 5), three large witnesses (12 states, 11 inputs of widths up to 200, 12 frames, property numbers 10 / 123 / 2^32-1, state values of 129 and 192 bits), failed sets = non-empty subsets of {0,1,7}, names None / simple / with $ . [ ] (sub-class: names containing @ or #); values swept over the boundary alphabet (every value of every type appears as a state value and as an input value in the first and in a later frame); and all concatenations of 1-3 witnesses of a reduced set read with parse_witnesses(n) for n = 1, count, count+1. Each witness: witness_to_string -> parse_witness; field-wise comparison, arrays compared at every recorded index. distinct_nontrivial = distinct witness texts that were read back.".into();
     rep.assumptions = vec![
         "complete witnesses only: non-empty failed set, a value for every input in every frame; a zero-step witness (initial frame only, the printer emits no `@` frame) is in the space only when it has a state and no inputs - input names live in `@` frames, and a text without any frame is not a witness of the format".into(),
         "a None name is expected back as the printer's default `state_<i>` / `input_<i>`".into(),
@@ -597,6 +597,38 @@ pub fn enumerate(thorough: bool) -> Vec<WSpec> {
                 out.push(WSpec { failed: vec![1], states: vec![(names(2, "mem", 0), arr)], inputs: vec![], frames: vec![vec![]] });
             }
         }
+    }
+    // (e) many of everything: two-digit state / input / frame / property numbers, and values wider than two words
+    {
+        let ns = 12usize;
+        let states: Vec<(Option<String>, SVal)> = (0..ns)
+            .map(|i| {
+                let v = match i % 4 {
+                    0 => SVal::Bv(Bv::from_u64(3, (i % 8) as u64)),
+                    1 => SVal::Bv(Bv::new(129, pvcore::bv::pow2(128) + num_bigint::BigUint::from(i as u64))),
+                    2 => arr_alphabet(2, 1)[(i * 5) % 20].clone(),
+                    _ => SVal::Bv(Bv::new(192, pvcore::bv::pow2(191) + pvcore::bv::pow2(64) + num_bigint::BigUint::from(7u32))),
+                };
+                (names(1 + i % 2, "s", i), v)
+            })
+            .collect();
+        let widths = [1u32, 3, 64, 65, 128, 129, 200, 3, 1, 64, 3];
+        let inputs: Vec<(Option<String>, u32)> = widths.iter().enumerate().map(|(i, w)| (names(1 + i % 2, "in", i), *w)).collect();
+        let frames: Vec<Vec<Bv>> = (0..12usize)
+            .map(|k| {
+                widths
+                    .iter()
+                    .enumerate()
+                    .map(|(i, w)| {
+                        let a = bv_alphabet(*w);
+                        a[(k * 7 + i * 3) % a.len()].clone()
+                    })
+                    .collect()
+            })
+            .collect();
+        out.push(WSpec { failed: vec![10, 123, 7], states: states.clone(), inputs: inputs.clone(), frames: frames.clone() });
+        out.push(WSpec { failed: vec![11], states: states[..11].to_vec(), inputs: inputs[..10].to_vec(), frames: frames.iter().take(11).map(|f| f[..10].to_vec()).collect() });
+        out.push(WSpec { failed: vec![4294967295], states: vec![], inputs: inputs.clone(), frames });
     }
     out
 }
